@@ -233,6 +233,10 @@ class Client(base_client.BaseClient):
                 break
             self._receive_packet(pkt)
 
+        if self.state != 'connected':
+            # the connection ended while its handshake was being handled
+            return
+
         if 'websocket' in self.upgrades and 'websocket' in self.transports:
             # attempt to upgrade to websocket
             if self._connect_websocket(url, headers, engineio_path):
